@@ -32,6 +32,25 @@ def put(txt, tag, body):
     if a in txt:
         return re.sub(re.escape(a) + ".*?" + re.escape(b), a + "\n" + body + "\n" + b, txt, flags=re.S)
     return txt
+# theorem inventory per property
+import sys
+sys.path.insert(0, os.path.join(V, "tools"))
+from props import PROPS
+inv = ["| property | Lean modules | theorems | names |", "|---|---|---|---|"]
+for pid in sorted(PROPS):
+    names = []
+    for mod in PROPS[pid]["lean_modules"]:
+        f = os.path.join(V, "lean", mod.replace(".", "/") + ".lean")
+        if os.path.exists(f):
+            names += re.findall(r"^theorem\s+(\S+)", open(f).read(), re.M)
+    inv.append("| %s | %s | %d | %s |" % (pid, ", ".join(PROPS[pid]["lean_modules"]), len(names), ", ".join(names)))
+def loc(pat):
+    n = 0
+    for f in glob.glob(os.path.join(V, "lean", "BV", pat)):
+        n += sum(1 for _ in open(f))
+    return n
+inv += ["", "Size of the Lean development: models %d lines, drivers %d, lemma files %d, property files %d." % (loc("Model/*.lean"), loc("Drive/*.lean"), loc("Lemmas/*.lean"), loc("Props/*.lean"))]
+txt = put(txt, "INVENTORY", "\n".join(inv))
 txt = put(txt, "FIXED", fixed_md)
 txt = put(txt, "SEEDS", seeds_md)
 open(p, "w").write(txt)
